@@ -60,8 +60,18 @@ theorem finishFrames_reach : ∀ (fuel : Nat) (s : Sys) (t : Nat), CompReach s.c
   | 0, _, _, h => h
   | fuel + 1, s, t, h => finishFrames_reach fuel _ t (finishExit_reach s t h)
 
-theorem killTask_reach (s : Sys) (t : Nat) (h : CompReach s.comp) : CompReach (killTask s t).comp :=
-  finishFrames_reach _ s t h
+theorem rollbackEnter_reach (s : Sys) (id : Nat) (h : CompReach s.comp) : CompReach (rollbackEnter s id).comp :=
+  compStep_reach _ _ (compStep_reach _ _ h)
+
+@[simp] theorem rollbackEnter_tasks (s : Sys) (id : Nat) : (rollbackEnter s id).tasks = s.tasks := by
+  simp [rollbackEnter]
+
+theorem killTask_reach (s : Sys) (t : Nat) (h : CompReach s.comp) : CompReach (killTask s t).comp := by
+  unfold killTask
+  dsimp only
+  split
+  · exact finishFrames_reach _ _ t (rollbackEnter_reach _ _ h)
+  · exact finishFrames_reach _ _ t h
 
 theorem killAll_reach : ∀ (ts : List Nat) (s : Sys), CompReach s.comp → CompReach (killAll s ts).comp
   | [], _, h => h
@@ -113,6 +123,23 @@ theorem step_reach (s : Sys) (ev : Ev) (h : CompReach s.comp) : CompReach (step 
     split
     · exact releaseOwner_reach _ _ (killAll_reach _ _ h)
     · exact h
+  | openFailing t spec =>
+    simp only [step]; split
+    · exact rollbackEnter_reach _ _ (construct_reach _ _ _ h)
+    · exact h
+  | openGated t spec =>
+    simp only [step]; split
+    · exact construct_reach s t spec h
+    · exact h
+  | release t =>
+    simp only [step]
+    split
+    · split
+      · rename_i id _
+        exact enterScope_reach s t id true false h
+      · exact h
+    · exact h
+  | threadCtor t => simp only [step]; split <;> exact h
   | tick dt => exact compStep_reach _ _ h
 
 theorem run_reach : ∀ (evs : List Ev) (s : Sys), CompReach s.comp → CompReach (run s evs).comp
@@ -191,9 +218,15 @@ theorem finishFrames_ctx : ∀ (fuel : Nat) (s : Sys) (t : Nat), AllCtxOk s → 
   | fuel + 1, s, t, h => finishFrames_ctx fuel _ t (finishExit_ctx s t h)
 
 theorem killTask_ctx (s : Sys) (t : Nat) (h : AllCtxOk s) : AllCtxOk (killTask s t) := by
-  have h1 := finishFrames_ctx (s.tasks t).frames.length s t h
-  exact flags_ctx _ _ t h1 (by intro u hu; simp [killTask, upd, hu]) (by simp [killTask, upd])
-    (by simp [killTask, upd]) (by simp [killTask, upd])
+  unfold killTask
+  dsimp only
+  split
+  · rename_i id _
+    have h0 : AllCtxOk (rollbackEnter s id) := tasks_eq_ctx _ _ h (by simp)
+    have h1 := finishFrames_ctx (s.tasks t).frames.length _ t h0
+    exact flags_ctx _ _ t h1 (by intro u hu; simp [upd, hu]) (by simp [upd]) (by simp [upd]) (by simp [upd])
+  · have h1 := finishFrames_ctx (s.tasks t).frames.length s t h
+    exact flags_ctx _ _ t h1 (by intro u hu; simp [upd, hu]) (by simp [upd]) (by simp [upd]) (by simp [upd])
 
 theorem killAll_ctx : ∀ (ts : List Nat) (s : Sys), AllCtxOk s → AllCtxOk (killAll s ts)
   | [], _, h => h
@@ -253,6 +286,25 @@ theorem step_ctx (s : Sys) (ev : Ev) (h : AllCtxOk s) : AllCtxOk (step s ev) := 
     split
     · exact releaseOwner_ctx _ _ (killAll_ctx _ _ h)
     · exact h
+  | openFailing t spec =>
+    simp only [step]; split
+    · exact tasks_eq_ctx _ _ h (by simp)
+    · exact h
+  | openGated t spec =>
+    simp only [step]; split
+    · have h1 : AllCtxOk (construct s t spec) := tasks_eq_ctx _ _ h (by simp)
+      exact flags_ctx _ _ t h1 (by intro u hu; simp [upd, hu]) (by simp [upd]) (by simp [upd]) (by simp [upd])
+    · exact h
+  | release t =>
+    simp only [step]
+    split
+    · split
+      · rename_i id _
+        have h2 := enterScope_ctx s t id true false h
+        exact flags_ctx _ _ t h2 (by intro u hu; simp [upd, hu]) (by simp [upd]) (by simp [upd]) (by simp [upd])
+      · exact h
+    · exact h
+  | threadCtor t => simp only [step]; split <;> exact h
   | tick dt => exact tasks_eq_ctx _ _ h (by simp [step])
 
 theorem run_ctx : ∀ (evs : List Ev) (s : Sys), AllCtxOk s → AllCtxOk (run s evs)
